@@ -776,6 +776,7 @@ def run(ctx):
     labels, enums = keyword_labels(ctx.repo), enum_names(ctx.repo)
     tool = Tool(ctx, exe)
     ck = Checker(ctx, tool, mexe, labels, enums)
+    times = {"prepare_s": round(ctx.elapsed(), 1)}
     try:
         # corpus first
         for name, c in ctx.corpus():
@@ -783,8 +784,11 @@ def run(ctx):
         big = (not ctx.quick) or ctx.is_unshown()
         ck.wiring(gen_single_option_cases(tables))
         ck.wiring([gen_random_args(rng, tables) for _ in range(600 if big else 120)], rng)
+        times["wiring_done_s"] = round(ctx.elapsed(), 1)
         ck.files([gen_file_case(rng) for _ in range(800 if big else 160)])
+        times["files_done_s"] = round(ctx.elapsed(), 1)
         ck.library([gen_lib_case(rng, tables) for _ in range(300 if big else 60)])
+        times["library_done_s"] = round(ctx.elapsed(), 1)
         if ctx.is_unshown() and not big:
             # search phase: an obligation or the correspondence broke during the run
             ck.wiring([gen_random_args(rng, tables) for _ in range(500)], rng)
@@ -801,7 +805,7 @@ def run(ctx):
              "independent reader); library: deterministic methods vs in-process calls (non-trivial = library "
              "returned an embedding). distinct by hash of the case.",
         samples=ck.samples, histogram=ck.hist, trusted_base=TRUSTED, assumptions=ASSUMPTIONS,
-        extra={"traces_validated_against_impl": ck.evals,
+        extra={"traces_validated_against_impl": ck.evals, "phase_times": times,
                "translator_tables": {"options": len(tables.get("options", [])), "exits": len(tables.get("exits", [])),
                                      "wiring": len(tables.get("wiring", [])),
                                      "numfmt": str(tables.get("numfmt")), "read_loop": tables.get("read_loop")}})
